@@ -288,7 +288,7 @@ def _populate_expr_impl_map(extend_context: bool) -> Dict[int, Dict[str, Callabl
         "exp": lambda x: x.exp(),
         "expm1": lambda x: x.expm1(),
         "ffill": lambda x: x.fill_null(strategy="forward"),
-        "first": lambda x: x.first(),
+        "first": lambda x: x.drop_nulls().first(),  # first non-null, as Pandas
         "floor": lambda x: x.floor(),
         "format_date": lambda x: x.format_date(),
         "format_datetime": lambda x: x.format_datetime(),
@@ -298,7 +298,7 @@ def _populate_expr_impl_map(extend_context: bool) -> Dict[int, Dict[str, Callabl
         "is_inf": lambda x: x.is_infinite(),
         "is_nan": lambda x: x.is_nan(),
         "is_null": lambda x: x.is_null(),
-        "last": lambda x: x.last(),
+        "last": lambda x: x.drop_nulls().last(),  # last non-null, as Pandas
         "log": lambda x: x.log(),
         "log10": lambda x: x.log10(),
         "log1p": lambda x: x.log1p(),
@@ -307,7 +307,7 @@ def _populate_expr_impl_map(extend_context: bool) -> Dict[int, Dict[str, Callabl
         "median": lambda x: x.median(),
         "min": lambda x: x.min(),
         "month": lambda x: x.month(),
-        "nunique": lambda x: x.n_unique(),
+        "nunique": lambda x: x.drop_nulls().n_unique(),  # nulls are not counted, as Pandas
         "quarter": lambda x: x.quarter(),
         "rank": lambda x: x.rank(),
         "round": lambda x: x.round(decimals=0),
